@@ -78,6 +78,15 @@ struct ParameterTraits<cntgs::AlignAs<T, Alignment>>
         return address + VALUE_BYTES;
     }
 
+    template <std::size_t PreviousTrailingAlignment>
+    static std::byte* relocate(ReferenceType source, std::byte* address) noexcept(std::is_nothrow_move_constructible_v<T>)
+    {
+        address = detail::align_if<(PreviousTrailingAlignment < ALIGNMENT), ALIGNMENT>(address);
+        assert(detail::is_aligned(address, ALIGNMENT));
+        detail::relocate_at(std::addressof(source), reinterpret_cast<T*>(address));
+        return address + VALUE_BYTES;
+    }
+
     static constexpr TrailingAlignmentResult trailing_alignment(std::size_t offset, std::size_t alignment) noexcept
     {
         std::size_t new_offset{};
@@ -298,6 +307,21 @@ struct BaseContiguousParameterTraits
     static constexpr void destroy(const cntgs::Span<T>& value) noexcept
     {
         std::destroy(Self::begin(value), std::end(value));
+    }
+
+    template <std::size_t PreviousTrailingAlignment>
+    static std::byte* relocate(const cntgs::Span<T>& source,
+                               std::byte* address) noexcept(std::is_nothrow_move_constructible_v<T>)
+    {
+        auto* target =
+            reinterpret_cast<T*>(detail::align_if<(PreviousTrailingAlignment < Alignment), Alignment>(address));
+        assert(detail::is_aligned(target, Alignment));
+        for (auto& value : source)
+        {
+            detail::relocate_at(std::addressof(value), target);
+            ++target;
+        }
+        return reinterpret_cast<std::byte*>(target);
     }
 };
 
